@@ -25,13 +25,24 @@ Five explorations on the real writers, one reference reader (pmc/ref/omkm.py):
                interaction (name None)} and of {write_cti, write_thermo_yaml, add a reaction with a
                new unnamed BEP, edit the objects in place} up to a depth: every file well formed,
                ids unique and stable, a model written twice gives the same file, a model edited
-               in place is written with its new content.
+               in place is written with its new content; third alphabet {writer @ request}: the same
+               objects written for different requests (Motz-Wise on / off, T, P + adsorption method, units)
+               one after the other - every file says what was asked for IT.
+  D   moves    species MOVED between coexisting phase objects (the other interface, a spare interface, a
+               spare gas phase; one or two species; add-then-remove, remove-then-add, interleaved, added by
+               mistake and removed again, round trips; append / extend / species setter x remove / pop /
+               setter / clear), then the model is written by both writers and compared with the model
+               whose phases list the species where the history left them.
+
+The expected activation energies do not come from the reaction getters: the harness combines each
+species' own get_GoRT / get_HoRT at the requested T and P into max(0, TS - initial, final - initial).
 """
 import contextlib
 import copy
 import io
 import itertools
 import os
+import re
 import shutil
 import tempfile
 
@@ -50,7 +61,9 @@ RULE = ('phases: BFS over population histories, states de-duplicated on (species
         'deviation of a representation coordinate + pairs inside one family and with the request '
         'coordinates units / T,P typing / units argument (thorough: all pairs + triples inside two families), each written by both writers; '
         'writes: every operation sequence up to the depth from three (alphabet 1) / two (alphabet 2) '
-        'initial id assignments')
+        'initial id assignments, every sequence of (writer, request) up to depth 2 (thorough 3) from two models; '
+        'moves: every move of the table x order x add kind x remove kind, every round trip, every move on four '
+        'other models (thorough: + every chain of two moves), each written by both writers')
 ASSUMPTIONS = [
     'species coefficients, site densities, rate inputs come from fixed tables (stated in bounds); '
     'polynomial coefficients are transcribed, not recomputed, so one table per class suffices',
@@ -69,6 +82,13 @@ ASSUMPTIONS = [
     'an explicitly supplied empty list of interactions may give an empty section or no section',
     'the NASA-9 intervals of a species are written in ascending order whatever order the object holds them in '
     '(what to_omkm_yaml does and what Cantera requires)',
+    'the model value of a computed Ea is max(0, TS - initial, final - initial) of the species\' own G/RT (H/RT for '
+    'adsorption steps written with get_H_act) at the requested T and P, times RT; a BEP transition state lies '
+    '(slope * delta_H + intercept) above the reactants (descriptor delta_H only)',
+    'the Motz-Wise switch of a file is the one requested for that file (use_motz_wise of the call; omitted = off), '
+    'whatever the reaction objects carry from their construction or from an earlier write',
+    'a species that the population history leaves in exactly one phase belongs to that phase (site density for A, '
+    'gas species of an adsorption step); histories that leave a species in two phases or in none are not written',
 ]
 EXPLANATION = ('explicit-state exploration and deviation-bounded product enumeration executed on the real '
                'writers; every explored case is an execution of the implementation')
@@ -90,6 +110,7 @@ PLANNED_TAGS = [
     # A1
     'hist:cti', 'hist:yaml', 'hist:add_rxn', 'hist:add_li', 'hist:same writer twice',
     'hist:write after add', 'hist:add_bep', 'hist:edit', 'hist:write after edit',
+    'hist:request base', 'hist:request motz', 'hist:request P', 'hist:request T', 'hist:request units',
 ]
 
 LEVEL_TEXT = ('Bounded exhaustive exploration of the real writers: BFS over phase-population histories on '
@@ -99,7 +120,9 @@ LEVEL_TEXT = ('Bounded exhaustive exploration of the real writers: BFS over phas
               'write_thermo_yaml and write_cti read back by independent YAML/ast readers and compared with '
               'an untouched copy of the model, a single+pair deviation product over the representation of the '
               'inputs (numeric typing, interval order, boundary values, unnamed BEPs, argument forms, prior writes), '
-              'and all write/add/edit histories up to the stated depth.')
+              'all write/add/edit histories and all (writer, request) sequences up to the stated depth, and all '
+              'moves of a species between coexisting phases (orders x add kinds x remove kinds, round trips) followed '
+              'by both writers; expected activation energies are recombined by the harness from the species getters.')
 LEVEL_NOTE = ('Finite tables of species / reactions (17 species, <= 12 reactions, <= 3 interactions, <= 5 BEPs); '
               'user ids restricted to prefix_NNNN; population depth 3 (quick) / 4 (thorough); representation pairs '
               'restricted in the quick tier to one family or a request coordinate.')
@@ -180,6 +203,9 @@ ORDER_T = ['H2', 'N2', 'NH3', 'Ar', 'RU(B)', 'RU(T)', 'H(T)', 'N(T)', 'NH(T)', '
 ORDER_S = ['RU(S)', 'H(S)', 'N(S)', 'NH(S)']
 SDEN = {'terrace': 2.1671e-09, 'step': 4.4385e-10}      # mol/cm2
 DENSITY = 12.4                                          # g/cm3
+# spare phases of the part "moves": constructed without species, populated by the history, written when non-empty
+SPARE = {'kink': dict(kind='interacting_interface', cls='InteractingInterface', site_density=7.5e-10),
+         'feed': dict(kind='ideal_gas', cls='IdealGas')}
 AR_A = [20.78600, 2.825911e-7, -1.464191e-7, 1.092131e-8, -3.661371e-8, -6.19735, 179.999, 0.]
 
 
@@ -626,12 +652,15 @@ DEF_CFG = dict(gas='nasa', surf='nasa', sites=2, build='organize', ids='auto', a
                # representation coordinates (part "forms"); the defaults are what B2 / A1 always used
                sp_form='plain', n9='asc', stick='table', beta='table', li_form='list', bep_form='float',
                bep_names='user', ph_form='float', TP_form='float', units_arg='obj', li_arg='none',
-               prior='none')
+               prior='none', rmotz='off', omit='none')
 COORDS = dict(sections=['all', 'no_phases', 'no_species'], gas=['nasa', 'nasa9', 'shomate'], surf=['nasa', 'shomate', 'nasa9'], sites=[2, 1],
               build=['organize', 'direct'], ids=['auto', 'user', 'mix', 'clash'], ads=['gas_first', 'surf_first'],
               Ea=['calc', 'given'], A=['calc', 'given'], li=[2, 0, 1, 3], li_names=['auto', 'user', 'mix'],
-              bep=[1, 0, 2], units=['ex', 'default', 'si', 'kmol'], T=[700., 300.], P=[1., 10.],
-              motz=[False, True], ads_act=['get_H_act', 'get_G_act'], out=['str', 'file'])
+              bep=[1, 0, 2], units=['ex', 'default', 'si', 'kmol'], T=[700., 300.], P=[1., 10., 0.05],
+              motz=[False, True], ads_act=['get_H_act', 'get_G_act'], out=['str', 'file'],
+              # the same objects were written before, by both writers, for the opposite request
+              # (other units, T, P, Motz-Wise, adsorption method): each file says what was asked for IT
+              prior=['none', 'flipped'])
 COORD_ORDER = sorted(COORDS)
 
 BEP_TABLE = {'NH-H': dict(slope=0.52, intercept=19.78, direction='cleavage', descriptor='delta_H'),
@@ -688,9 +717,16 @@ def rate_inputs(cfg, table):
     """Apply the rate-input kinds of the configuration to every reaction of the table (each reaction gets
     its own number, so that two reactions never carry the same value by accident)."""
     out = []
+    n_ads = 0
     for i, (tag, string, kw) in enumerate(table):
         kw = dict(kw)
         ads = bool(kw.get('is_adsorption'))
+        # the reaction's own Motz-Wise attribute (the file says what is requested for the file)
+        rm = cfg.get('rmotz', 'off')
+        if ads:
+            if rm == 'on' or (rm == 'alt' and n_ads % 2 == 0):
+                kw['use_motz_wise'] = True
+            n_ads += 1
         ek = cfg.get('Ea', 'calc')
         if ek in ('zero', 'izero', 'npzero'):
             kw['Ea'] = {'zero': 0.0, 'izero': 0, 'npzero': np.float64(0.)}[ek]
@@ -829,7 +865,12 @@ def build_model(cfg, phases=True):
     m.interactions = [PiecewiseCovEffect(name=nm, **_li_kwargs(kw, cfg.get('li_form', 'list')))
                       for kw, nm in zip(LI_TABLE[:cfg['li']], li_names)]
     m.units = make_units(cfg['units'])
-    m.phase_names = ['gas', 'bulk', 'terrace'] + (['step'] if cfg['sites'] == 2 else [])
+    m.phase_names = ['gas', 'bulk', 'terrace'] + (['step'] if cfg['sites'] == 2 else [])     # the phases written
+    # which phase lists which species (reference; the part "moves" edits it along with the real phases)
+    m.home = {n: phase_name_of(n) for n in names}
+    m.members = {pn: [n for n in names if phase_name_of(n) == pn] for pn in m.phase_names + list(SPARE)}
+    m.phase_kind = dict({pn: 'interacting_interface' for pn in m.phase_names}, gas='ideal_gas',
+                        bulk='stoichiometric_solid', **{pn: kw['kind'] for pn, kw in SPARE.items()})
     m.sden = dict(SDEN)                     # site densities / density the phases are (re)built with
     m.density = 12 if cfg.get('ph_form') == 'int' else DENSITY
     if phases:
@@ -871,6 +912,12 @@ def attach_phases(m):
                 if li:
                     dct['interactions'] = li
             m.phases.append(cls(**dct))
+    if cfg.get('spare'):
+        for pn, kw in SPARE.items():
+            extra = dict(name=pn)
+            if 'site_density' in kw:
+                extra.update(site_density=_ph_num(kw['site_density'], pf), phases=['gas', 'bulk'])
+            m.phases.append(getattr(omkm_phase, kw['cls'])(**extra))
 
 
 def phase_name_of(species_name):
@@ -900,6 +947,39 @@ def _is_refusal(e, cfg):
             and ('not a supported unit' in msg or 'Invalid unit' in msg))
 
 
+def _species_route(m, T, P):
+    """-> barrier(reaction, 'G' | 'H'): the dimensionless barrier max(0, TS - initial, final - initial) put
+    together by the harness from each species' own get_GoRT / get_HoRT at the requested T and P (no getter
+    of the reaction is involved).  A BEP as transition state: E/RT = (slope * delta_H[kcal/mol] + intercept)
+    / RT above the reactants, in H and (no entropy of its own) in G."""
+    from pmutt import constants as c
+    T, P = float(T), float(P)
+    q = {s.name: dict(G=float(s.get_GoRT(T=T, P=P)), H=float(s.get_HoRT(T=T, P=P))) for s in m.species}
+    RT_kcal = float(c.R('kcal/mol/K')) * T
+
+    def total(species, stoich, which):
+        return sum(float(st) * q[s.name][which] for s, st in zip(species, stoich))
+
+    def barrier(r, which):
+        ini = total(r.reactants, r.reactants_stoich, which)
+        fin = total(r.products, r.products_stoich, which)
+        cands = [0., fin - ini]
+        if r.transition_state is not None:
+            ts = 0.
+            for s, st in zip(r.transition_state, r.transition_state_stoich):
+                if any(s is b for b in m.beps):
+                    if s.descriptor != 'delta_H':
+                        raise ValueError('the harness knows the delta_H descriptor only')
+                    dH = (total(r.products, r.products_stoich, 'H')
+                          - total(r.reactants, r.reactants_stoich, 'H')) * RT_kcal
+                    ts += float(st) * (ini + (float(s.slope) * dH + float(s.intercept)) / RT_kcal)
+                else:
+                    ts += float(st) * q[s.name][which]
+            cands.append(ts - ini)
+        return max(cands)
+    return barrier
+
+
 def expected_model(m, req):
     """Plain-data description of the model in the requested units, from public attributes and
     the reaction getters of a copy that no writer has touched."""
@@ -915,6 +995,9 @@ def expected_model(m, req):
     # what the phase objects say (mol/cm2, g/cm3)
     sden = {ph.name: float(ph.site_density) for ph in m.phases if getattr(ph, 'site_density', None) is not None}
     dens = {ph.name: float(ph.density) for ph in m.phases if getattr(ph, 'density', None) is not None}
+    home = m.home                            # species name -> name of the phase that lists it
+    barrier = _species_route(m, T, P)        # Ea / RT from the species' own G/RT, H/RT at the requested T and P
+    RT = float(c.R('%s/K' % act)) * float(T)
     # species
     ex['species'] = [species_record(s) for s in m.species]
     # reactions
@@ -930,12 +1013,12 @@ def expected_model(m, req):
         if r.is_adsorption:
             rec['kind'] = 'stick'
             rec['A'] = float(r.sticking_coeff)
-            gas = [s.name for s in r.reactants if phase_name_of(s.name) == 'gas']
+            gas = [s.name for s in r.reactants if m.phase_kind[home[s.name]] == 'ideal_gas']
             rec['sticking_species'] = gas[0]
             if r.Ea is not None:
                 rec['Ea'] = float(c.convert_unit(float(r.Ea), initial='kcal/mol', final=act))
             else:
-                rec['Ea'] = float(getattr(r, req['ads_act'])(units=act, T=T, P=P))
+                rec['Ea'] = barrier(r, {'get_G_act': 'G', 'get_H_act': 'H'}[req['ads_act']]) * RT
         else:
             rec['kind'] = 'arrh'
             if r.A is not None:
@@ -943,7 +1026,7 @@ def expected_model(m, req):
             else:
                 sig_eff, n = 0.0, 0.0
                 for s, st in zip(r.reactants, r.reactants_stoich):
-                    pn = phase_name_of(s.name)
+                    pn = home[s.name]
                     if pn in sden:
                         sig_eff += st * sden[pn] * Q / L ** 2
                         n += st
@@ -951,7 +1034,7 @@ def expected_model(m, req):
             if r.Ea is not None:
                 rec['Ea'] = float(c.convert_unit(float(r.Ea), initial='kcal/mol', final=act))
             else:
-                rec['Ea'] = float(r.get_G_act(units=act, T=T, P=P))
+                rec['Ea'] = barrier(r, 'G') * RT
         rx.append(rec)
     ex['reactions'] = rx
     # interactions
@@ -974,14 +1057,14 @@ def expected_model(m, req):
                                synthesis=[k for k, rec in enumerate(rx) if rec['bep'] == bi and rec['direction'] == 'synthesis']))
     # phases
     ph = []
+    by_name = {s.name: s for s in m.species}
     for name in m.phase_names:
-        sp = [s for s in m.species if phase_name_of(s.name) == name]
+        sp = [by_name[n] for n in m.members[name]]
         els = set()
         for s in sp:
             els |= set(s.elements)
-        rec = dict(name=name, species=[s.name for s in sp], elements=sorted(els),
-                   kind={'gas': 'ideal_gas', 'bulk': 'stoichiometric_solid'}.get(name, 'interacting_interface'))
-        if name in SDEN:
+        rec = dict(name=name, species=[s.name for s in sp], elements=sorted(els), kind=m.phase_kind[name])
+        if name in sden:
             rec['site_density'] = sden[name] * Q / L ** 2
             rec['sd_unit'] = '%s/%s^2' % (U['quantity'], U['length'])
             rec['rxn'] = [k for k, r in enumerate(rx) if name in r['phases']]
@@ -994,7 +1077,7 @@ def expected_model(m, req):
             rec['rxn'] = []
             rec['li'] = []
             rec['beps'] = []
-        if name == 'bulk':
+        if name in dens:
             rec['density'] = dens[name] * M / L ** 3
         ph.append(rec)
     ex['phases'] = ph
@@ -1030,6 +1113,7 @@ def read_thermo_yaml(text):
     if not isinstance(doc, dict):
         return None, probs + ['top level is not a mapping']
     got = dict(sections=sorted(doc), fmt='yaml')
+    got['motz_literals'] = sorted(set(re.findall(r'Motz-Wise:[ \t]*([^\s,}]+)', text)))
     got['units'] = doc.get('units')
     ph = []
     for p in doc.get('phases') or []:
@@ -1185,15 +1269,16 @@ C_BEP = 'each BEP once with id, direction and member reactions'
 C_BEP_NUM = 'BEP slope and intercept in the requested units'
 
 
-def compare(ex, got, req, ctx, case, part, supplied, empty_ok=()):
+def compare(ex, got, req, ctx, case, part, supplied, empty_ok=(), sig_extra=None):
     """supplied: set of {'phases','species','reactions','interactions'} given to the writer;
-    empty_ok: those of them that were supplied as an explicit empty list."""
+    empty_ok: those of them that were supplied as an explicit empty list;
+    sig_extra: further keys for every signature (what kind of history led to this write)."""
     yamlf = got['fmt'] == 'yaml'
     tol_coef = 1e-13 if yamlf else 5.1e-9
     tol_rate = 1e-9 if yamlf else 5.1e-6
     tol_repr = 1e-9
     U = ex['units']
-    S = lambda **kw: dict(part=part, **kw)          # noqa: E731
+    S = lambda **kw: dict(part=part, **dict(sig_extra or {}, **kw))          # noqa: E731
     ok = True
 
     # sections -------------------------------------------------------------------------------
@@ -1276,6 +1361,12 @@ def compare(ex, got, req, ctx, case, part, supplied, empty_ok=()):
                                     dict(sg, field='not sticking'), case)
         if not yamlf:
             ok &= ctx.equal(C_RX_STICK, got['motz'], [bool(req['motz'])], S(item='reactions', field='motz directive'), case)
+        else:
+            # the YAML 1.2 core schema booleans (a quoted 'False' would be a string)
+            ok &= ctx.true(C_RX_STICK, all(l in ('true', 'True', 'TRUE', 'false', 'False', 'FALSE')
+                                           for l in got['motz_literals']),
+                           S(item='reactions', field='Motz-Wise is a YAML boolean'), case, got['motz_literals'],
+                           'true / false')
     # interactions ---------------------------------------------------------------------------
     li_ok = False
     if 'interactions' in supplied and ctx.equal(C_LI, len(got['interactions']), len(ex['interactions']),
@@ -1368,7 +1459,27 @@ def compare(ex, got, req, ctx, case, part, supplied, empty_ok=()):
 def _req(cfg):
     f = {'float': float, 'int': lambda v: int(round(v)), 'np': np.float64}[cfg.get('TP_form', 'float')]
     units = 'default' if cfg.get('units_arg') == 'none' else cfg['units']      # units=None means Units()
-    return dict(units=units, T=f(cfg['T']), P=f(cfg['P']), motz=cfg['motz'], ads_act=cfg['ads_act'])
+    req = dict(units=units, T=f(cfg['T']), P=f(cfg['P']), motz=cfg['motz'], ads_act=cfg['ads_act'])
+    om = cfg.get('omit', 'none')
+    req['omit'] = {'none': [], 'motz': ['use_motz_wise'], 'TP': ['T', 'P'], 'ads': ['ads_act_method'],
+                   'all': ['use_motz_wise', 'T', 'P', 'ads_act_method', 'units']}[om]
+    # what the documentation says an omitted argument stands for
+    if 'use_motz_wise' in req['omit']:
+        req['motz'] = False
+    if 'T' in req['omit']:
+        req['T'], req['P'] = 300., 1.
+    if 'ads_act_method' in req['omit']:
+        req['ads_act'] = 'get_H_act'
+    if 'units' in req['omit']:
+        req['units'] = 'default'
+    return req
+
+
+def _flipped(req):
+    """The opposite request: other units, temperature, pressure, Motz-Wise switch and adsorption method."""
+    return dict(units='si' if req['units'] != 'si' else 'ex', T=type(req['T'])(300 if req['T'] > 500 else 700),
+                P=type(req['P'])(10 if req['P'] == 1 else 1), motz=not req['motz'],
+                ads_act='get_G_act' if req['ads_act'] == 'get_H_act' else 'get_H_act', omit=[])
 
 
 def _supplied(m):
@@ -1391,23 +1502,31 @@ def _writer_kwargs(m, req):
     """The keyword arguments handed to write_cti / write_thermo_yaml for this model and request."""
     sup = _supplied(m)
     ua = m.cfg.get('units_arg', 'obj')
-    units = m.units if ua == 'obj' else (dict(UNIT_SYSTEMS[req['units']]) if ua == 'dict' else None)
+    if ua == 'obj':                           # a request in other units than the model's own: a Units object of its own
+        units = m.units if req['units'] == _req(m.cfg)['units'] else make_units(req['units'])
+    else:
+        units = dict(UNIT_SYSTEMS[req['units']]) if ua == 'dict' else None
     if m.interactions:
         li = m.interactions
     else:
         li = [] if m.cfg.get('li_arg') == 'empty' else None
-    return dict(phases=m.phases if 'phases' in sup else None, species=m.species if 'species' in sup else None,
-                reactions=m.reactions, lateral_interactions=li, units=units,
-                T=req['T'], P=req['P'], use_motz_wise=req['motz'], ads_act_method=req['ads_act'])
+    written = [ph for ph in m.phases if ph.name in m.phase_names]
+    kw = dict(phases=written if 'phases' in sup else None, species=m.species if 'species' in sup else None,
+              reactions=m.reactions, lateral_interactions=li, units=units,
+              T=req['T'], P=req['P'], use_motz_wise=req['motz'], ads_act_method=req['ads_act'])
+    for k in req.get('omit', ()):
+        del kw[k]
+    return kw
 
 
-def write_model(m, writer, req, out, ctx, case, part):
-    """Run the real writer.  Returns the text (from the returned string or from the file)."""
+def write_model(m, writer, req, out, ctx, case, part, oracle=True):
+    """Run the real writer.  Returns the text (from the returned string or from the file).
+    oracle=False: an earlier write of a history whose text is not looked at (no ctml_writer run)."""
     from pmutt.io.omkm import write_cti, write_thermo_yaml
     from pmutt.io.ctml_writer import convert
     sup = _supplied(m)
     kw = _writer_kwargs(m, req)
-    units_before = copy.deepcopy(kw['units']) if isinstance(kw['units'], dict) else None
+    units_before = copy.deepcopy(kw['units']) if isinstance(kw.get('units'), dict) else None
     tmp = tempfile.mkdtemp(prefix='c07_')
     try:
         if writer == 'yaml':
@@ -1424,7 +1543,7 @@ def write_model(m, writer, req, out, ctx, case, part):
             return text
         # CTI: the bundled ctml_writer is the second well-formedness oracle
         accepted = True
-        complete = {'phases', 'species', 'reactions'} <= sup     # ctml_writer needs the whole mechanism
+        complete = oracle and {'phases', 'species', 'reactions'} <= sup     # ctml_writer needs the whole mechanism
         if out == 'file':
             path = os.path.join(tmp, 'thermo.cti')
             try:
@@ -1611,6 +1730,11 @@ def _thermo_eval(case, ctx):
             m = build_model(cfg)
             ident, before = _identities(m), raw_state(m)
             first = None
+            if cfg.get('prior') == 'flipped':
+                # the same objects were already written, by both writers, for the opposite request
+                ctx.tag('prior:same objects written for the opposite request')
+                for w in ('yaml', 'cti'):
+                    write_model(m, w, _flipped(req), 'str', ctx, case, part, oracle=False)
             if cfg.get('prior') == 'same':
                 # the same objects were already written, by the other writer and by this one
                 ctx.tag('prior:same model written before')
@@ -1633,6 +1757,8 @@ def _thermo_eval(case, ctx):
             ctx.tag('A:given')
         if cfg['P'] != 1.:
             ctx.tag('P!=1')
+        if cfg['P'] < 1.:
+            ctx.tag('P<1')
         if cfg['ads_act'] == 'get_G_act':
             ctx.tag('ads_act:get_G_act')
         if cfg['motz']:
@@ -1693,16 +1819,24 @@ FORM_COORDS = dict(cls=['nasa9', 'nasa', 'shomate'], sp_form=SP_FORMS, n9=list(N
                    Ea=EA_KINDS, A=A_KINDS, stick=STICK_KINDS, beta=BETA_KINDS,
                    li_form=LI_FORMS, bep_form=BEP_FORMS, bep_names=BEP_NAMES, ph_form=PH_FORMS,
                    li_arg=['none', 'empty'],
-                   TP_form=['float', 'int', 'np'], units_arg=['obj', 'dict', 'none'], prior=['none', 'other', 'same'],
-                   units=['ex', 'si', 'default'], ids=['auto', 'desc'])
+                   TP_form=['float', 'int', 'np'], units_arg=['obj', 'dict', 'none'],
+                   prior=['none', 'other', 'same', 'flipped'],
+                   units=['ex', 'si', 'default'], ids=['auto', 'desc'],
+                   # Motz-Wise: requested for the file / carried by the adsorption reactions themselves
+                   motz=[False, True], rmotz=['off', 'on', 'alt'],
+                   # request arguments left out of the call (documented defaults: 300 K, 1 bar, Motz-Wise off,
+                   # get_H_act, pMuTT's default units) instead of given
+                   omit=['none', 'motz', 'TP', 'ads', 'all'])
 FORM_FAMILY = dict(cls='S', sp_form='S', n9='S', Ea='R', A='R', stick='R', beta='R', li_form='L', bep_form='L',
-                   bep_names='L', ph_form='L', li_arg='L', TP_form='W', units_arg='W', prior='W', units='W', ids='W')
+                   bep_names='L', ph_form='L', li_arg='L', TP_form='W', units_arg='W', prior='W', units='W', ids='W',
+                   motz='W', rmotz='W', omit='W')
 FORM_CROSS = ('TP_form', 'units', 'units_arg')     # request coordinates paired with every coordinate in the quick tier
 FORM_ORDER = sorted(FORM_COORDS)
 FORM_TAGGED = ['sp_form', 'n9', 'Ea', 'A', 'stick', 'beta', 'li_form', 'bep_form', 'bep_names', 'ph_form', 'li_arg',
-               'TP_form', 'units_arg']
+               'TP_form', 'units_arg', 'rmotz', 'omit']
 PLANNED_TAGS += ['%s:%s' % (k_, v_) for k_ in FORM_TAGGED for v_ in FORM_COORDS[k_] if v_ != DEF_CFG[k_]]
-PLANNED_TAGS += ['prior:other model written first', 'prior:same model written before', 'ids:desc']
+PLANNED_TAGS += ['prior:other model written first', 'prior:same model written before', 'ids:desc',
+                 'prior:same objects written for the opposite request', 'P<1']
 
 
 def _form_deltas(tier):
@@ -1756,6 +1890,13 @@ HIST_INITS = [dict(ids='auto', li_names='auto'), dict(ids='mix', li_names='mix')
 HIST_OPS2 = ['cti', 'yaml', 'add_bep', 'edit']
 HIST_INITS2 = [dict(ids='auto', li_names='auto', bep_names='auto', bep=2, build='direct', sites=1),
                dict(ids='auto', li_names='auto', bep_names='clash', bep=2, build='direct', sites=1, surf='nasa9')]
+# third alphabet: the same objects written for different requests, one after the other (writer @ request): every
+# file says what was asked for IT, whatever was asked for before
+HIST_REQS = {'base': {}, 'motz': dict(motz=True), 'P': dict(P=10., ads_act='get_G_act'), 'T': dict(T=300.),
+             'units': dict(units='si')}
+HIST_OPS3 = ['%s@%s' % (w_, r_) for r_ in HIST_REQS for w_ in ('yaml', 'cti')]
+HIST_INITS3 = [dict(ids='auto', li_names='auto', build='direct', sites=1),
+               dict(ids='auto', li_names='auto', build='direct', sites=1, rmotz='alt', surf='shomate')]
 EXTRA_BEPS = [('NH2-H', dict(slope=0.41, intercept=17.5, direction='cleavage', descriptor='delta_H'),
                'NH3(T) + RU(T) = NH2-H = NH2(T) + H(T) + RU(B)', 'cleavage'),
               ('N-N', dict(slope=0.63, intercept=31.25, direction='synthesis', descriptor='delta_H'),
@@ -1813,7 +1954,7 @@ def _hist_edit(m, n):
 
 def _hist_eval(case, ctx):
     cfg = _cfg_of(case['init'])
-    req = _req(cfg)
+    req0 = _req(cfg)
     _reset_defaults()
     try:
         m = build_model(cfg)            # lives through the history, written repeatedly
@@ -1823,7 +1964,7 @@ def _hist_eval(case, ctx):
         n_rx = n_li = n_bep = n_edit = 0
         ok = True
         for k, op in enumerate(case['ops']):
-            ctx.tag('hist:' + op)
+            ctx.tag('hist:' + op.partition('@')[0])
             ctx.trans()
             if op in ('add_rxn', 'add_li', 'add_bep'):
                 _hist_add(m, op, n_rx, n_li, n_bep)
@@ -1839,7 +1980,13 @@ def _hist_eval(case, ctx):
                 n_edit += 1
                 last_text = {}
                 continue
+            op_full = op
+            op, _, rq = op.partition('@')
             part = 'history:' + op
+            req = req0
+            if rq:                                # this write has a request of its own
+                ctx.tag('hist:request ' + rq)
+                req = _req(dict(cfg, **HIST_REQS[rq]))
             if n_rx or n_li or n_bep:
                 ctx.tag('hist:write after add')
             if n_edit:
@@ -1862,11 +2009,11 @@ def _hist_eval(case, ctx):
                 return False
             ok &= compare(ex, got, req, ctx, case, part, _supplied(m))
             ok &= check_left_alone(m, before, ident, ctx, case, part)
-            if op in last_text:
+            if op_full in last_text:
                 ctx.tag('hist:same writer twice')
-                ok &= ctx.true(C_H_SAME, _strip_stamp(text) == last_text[op], dict(part=part, item='file'), case,
-                               _first_diff(last_text[op], _strip_stamp(text)), 'identical text')
-            last_text[op] = _strip_stamp(text)
+                ok &= ctx.true(C_H_SAME, _strip_stamp(text) == last_text[op_full], dict(part=part, item='file'), case,
+                               _first_diff(last_text[op_full], _strip_stamp(text)), 'identical text')
+            last_text[op_full] = _strip_stamp(text)
             if len(got['reactions']) == len(ex['reactions']):
                 for j, r in enumerate(got['reactions']):
                     pinned_rx.setdefault(j, r['id'])
@@ -1905,9 +2052,9 @@ def _run_hist(shard, ctx):
             def run(case_, ctx_, res=res):
                 res['ok'] = _hist_eval(case_, ctx_)
             ctx.state(('hist', sorted(init.items()), ops))
-            if ops[-1] in ('cti', 'yaml') and len(ops) > 1:
+            if ops[-1].partition('@')[0] in ('cti', 'yaml') and len(ops) > 1:
                 ctx.nontrivial(('hist', sorted(init.items()), ops))
-            if not ctx.run_case(run, case, dict(part='history:' + ops[-1], item='write')):
+            if not ctx.run_case(run, case, dict(part='history:' + ops[-1].partition('@')[0], item='write')):
                 continue
             if not res.get('ok'):
                 continue
@@ -1919,6 +2066,244 @@ def _run_hist(shard, ctx):
                     continue
                 nxt.append(ops + [op])
         frontier = nxt
+
+
+# =============================================================================================
+# D - moves: species moved between coexisting phases (in both orders), then the model is written
+# =============================================================================================
+# the model: both interfaces, phases built directly, plus two spare phases constructed without species
+MOVE_BASE = dict(build='direct', sites=2, spare=True)
+# (species moved together, from, to): a surface reactant / the site species / the gas reactant of the adsorption
+# steps / a step-site species, to the other interface, to a spare interface, to a spare gas phase
+MOVES = [(['NH(T)'], 'terrace', 'step'), (['NH(T)'], 'terrace', 'kink'), (['RU(T)'], 'terrace', 'kink'),
+         (['H2'], 'gas', 'feed'), (['N(S)'], 'step', 'terrace'),
+         (['NH2(T)', 'NH(T)'], 'terrace', 'step'), (['H2', 'N2'], 'gas', 'feed')]
+MOVE_ADD = ['append', 'extend', 'set']                 # append_species / extend_species / species = old + [...]
+MOVE_REM = ['remove', 'pop', 'set', 'clear']           # remove_species / pop_species / species = rest / clear + extend(rest)
+MOVE_ORDERS = ['add-remove', 'remove-add', 'interleaved', 'add-undo']
+MOVE_CFGS = [dict(surf='shomate', units='si'), dict(surf='nasa9', gas='nasa9', units='default'),
+             dict(P=10., ads_act='get_G_act', ids='user'), dict(build='organize')]
+PLANNED_TAGS += ['move:' + o_ for o_ in MOVE_ORDERS] + ['move:add ' + a_ for a_ in MOVE_ADD] + \
+                ['move:remove ' + r_ for r_ in MOVE_REM] + ['move:round trip', 'move:spare phase written',
+                                                             'move:gas species', 'move:two species']
+
+
+def _mv_ref(members, op):
+    """One population operation on the reference (one list of names per phase)."""
+    kind, pn = op[0], op[1]
+    cur = members[pn]
+    if kind == 'append':
+        cur.append(op[2])
+    elif kind == 'extend':
+        cur.extend(op[2])
+    elif kind == 'set':
+        members[pn] = list(op[2])
+    elif kind == 'remove':
+        cur.remove(op[2])
+    elif kind == 'pop':
+        cur.pop(op[2])
+    elif kind == 'clear':
+        del cur[:]
+    else:
+        raise ValueError(kind)
+
+
+def _mv_real(m, op):
+    """The same operation on the real phase objects."""
+    kind, pn = op[0], op[1]
+    ph = [x for x in m.phases if x.name == pn][0]
+    sp = {x.name: x for x in m.species}
+    if kind == 'append':
+        ph.append_species(sp[op[2]])
+    elif kind == 'extend':
+        ph.extend_species([sp[n] for n in op[2]])
+    elif kind == 'set':
+        ph.species = [sp[n] for n in op[2]]
+    elif kind == 'remove':
+        ph.remove_species(op[2])
+    elif kind == 'pop':
+        ph.pop_species(op[2])
+    elif kind == 'clear':
+        ph.clear_species()
+    else:
+        raise ValueError(kind)
+
+
+def _mv_ops(members, mv):
+    """The operations of one move, spelled out against the current reference (which is updated)."""
+    ops = []
+
+    def do(op):
+        _mv_ref(members, op)
+        ops.append(op)
+
+    def add(pn, names):
+        if mv['add'] == 'append':
+            for n in names:
+                do(['append', pn, n])
+        elif mv['add'] == 'extend':
+            do(['extend', pn, list(names)])
+        else:
+            do(['set', pn, members[pn] + list(names)])
+
+    def rem(pn, names):
+        if mv['rem'] == 'remove':
+            for n in names:
+                do(['remove', pn, n])
+        elif mv['rem'] == 'pop':
+            for n in names:
+                do(['pop', pn, members[pn].index(n)])
+        elif mv['rem'] == 'set':
+            do(['set', pn, [n for n in members[pn] if n not in names]])
+        else:
+            rest = [n for n in members[pn] if n not in names]
+            do(['clear', pn])
+            if rest:
+                do(['extend', pn, rest])
+    g, src, dst, order = mv['group'], mv['src'], mv['dst'], mv['order']
+    if order == 'add-remove':
+        add(dst, g)
+        rem(src, g)
+    elif order == 'remove-add':
+        rem(src, g)
+        add(dst, g)
+    elif order == 'interleaved':
+        for n in g:
+            add(dst, [n])
+            rem(src, [n])
+    elif order == 'add-undo':                 # added to the other phase by mistake and taken out of it again
+        add(dst, g)
+        rem(dst, g)
+    else:
+        raise ValueError(order)
+    return ops
+
+
+def _mv_settle(m, members):
+    """Reference membership after the history -> home of every species, phases to write."""
+    m.members = {pn: list(l) for pn, l in members.items()}
+    m.home = {}
+    for pn, l in m.members.items():
+        for n in l:
+            if n in m.home:
+                raise ValueError('harness: %s is listed by two phases' % n)
+            m.home[n] = pn
+    if set(m.home) != {x.name for x in m.species}:
+        raise ValueError('harness: a species is listed by no phase')
+    m.phase_names = [ph.name for ph in m.phases if ph.name not in SPARE or m.members[ph.name]]
+
+
+def _moves_label(moves):
+    if len(moves) == 1:
+        return moves[0]['order']
+    a, b = moves[0], moves[-1]
+    if len(moves) == 2 and a['group'] == b['group'] and a['src'] == b['dst'] and a['dst'] == b['src']:
+        return 'round trip'
+    return 'chain'
+
+
+def _moves_eval(case, ctx):
+    cfg = _cfg_of(dict(MOVE_BASE, **case['delta']))
+    writer = case['writer']
+    part = 'moves_yaml' if writer == 'yaml' else 'moves_cti'
+    label = _moves_label(case['moves'])
+    extra = dict(hist=label)
+    req = _req(cfg)
+    _reset_defaults()
+    try:
+        m2 = build_model(cfg)                 # untouched twin: only its reference membership follows the history
+        m = build_model(cfg)
+        members = {pn: list(l) for pn, l in m2.members.items()}
+        ops = []
+        for mv in case['moves']:
+            ops += _mv_ops(members, mv)
+            ctx.tag('move:' + mv['order'])
+            ctx.tag('move:add ' + mv['add'])
+            if mv['order'] != 'add-undo' or mv['rem'] != 'clear':
+                ctx.tag('move:remove ' + mv['rem'])
+            if len(mv['group']) > 1:
+                ctx.tag('move:two species')
+            if mv['src'] == 'gas':
+                ctx.tag('move:gas species')
+        if label == 'round trip':
+            ctx.tag('move:round trip')
+        for op in ops:
+            _mv_real(m, op)
+            ctx.trans()
+        _mv_settle(m2, members)
+        _mv_settle(m, members)
+        if any(pn in SPARE for pn in m.phase_names):
+            ctx.tag('move:spare phase written')
+        ex = expected_model(m2, req)
+        ident, before = _identities(m), raw_state(m)
+        # ctml_writer converts mechanisms in which every reaction touches one interface and the gas species sit in
+        # the gas phase the interfaces name
+        one_if = all(len({m.home[n] for _, n in r['reactants'] + r['products']
+                          if m.phase_kind[m.home[n]] == 'interacting_interface'}) <= 1 for r in ex['reactions'])
+        gas_ok = all(m.home[n] != 'feed' for n in m.home)
+        text = write_model(m, writer, req, 'str', ctx, case, part, oracle=one_if and gas_ok)
+        got, probs = (read_thermo_yaml if writer == 'yaml' else read_cti)(text)
+        ctx.true(C_WF, got is not None and not probs, dict(part=part, item='file', **extra), case, probs, [])
+        if got is None:
+            return
+        compare(ex, got, req, ctx, case, part, _supplied(m), sig_extra=extra)
+        check_left_alone(m, before, ident, ctx, case, part)
+    finally:
+        _reset_defaults()
+
+
+def _move_histories(tier):
+    """-> [(cfg delta, [moves])].  quick: every move (one species, two species together) in every order x
+    {add kind x remove kind}, the added-by-mistake-and-removed histories, every round trip in 2 x 2 orders, and
+    every move in every order on four other models (other classes / units / request / organize_phases);
+    thorough: the kind product on the other models too, and every chain of two different moves."""
+    q = tier == 'quick'
+    out = []
+
+    def mv(g, src, dst, order, add='append', rem='remove'):
+        return dict(group=list(g), src=src, dst=dst, order=order, add=add, rem=rem)
+    for g, src, dst in MOVES:
+        single = len(g) == 1
+        orders = ['add-remove', 'remove-add'] + ([] if single else ['interleaved'])
+        kinds = [(a, r) for a in MOVE_ADD for r in MOVE_REM]
+        for order in orders:
+            for a, r in kinds:
+                out.append(({}, [mv(g, src, dst, order, a, r)]))
+        for a, r in [(a, 'remove') for a in MOVE_ADD] + [('append', 'pop'), ('append', 'set')]:
+            out.append(({}, [mv(g, src, dst, 'add-undo', a, r)]))
+        for o1 in ('add-remove', 'remove-add'):
+            for o2 in ('add-remove', 'remove-add'):
+                out.append(({}, [mv(g, src, dst, o1), mv(g, dst, src, o2)]))
+        for delta in MOVE_CFGS:
+            for order in orders:
+                for a, r in (kinds if not q else [('append', 'remove')]):
+                    out.append((delta, [mv(g, src, dst, order, a, r)]))
+    if not q:
+        for (g1, s1, d1), (g2, s2, d2) in itertools.permutations(MOVES, 2):
+            if set(g1) & set(g2):
+                continue
+            for o1 in ('add-remove', 'remove-add'):
+                for o2 in ('add-remove', 'remove-add'):
+                    out.append(({}, [mv(g1, s1, d1, o1), mv(g2, s2, d2, o2)]))
+    return out
+
+
+def _run_moves(shard, ctx):
+    for delta, moves in shard['histories']:
+        for writer in ('yaml', 'cti'):
+            case = dict(kind='moves', writer=writer, delta=delta, moves=moves)
+            key = ('moves', writer, sorted(delta.items(), key=str), core_dumps(moves))
+            ctx.state(key)
+            ctx.nontrivial(key)
+            part = 'moves_yaml' if writer == 'yaml' else 'moves_cti'
+            ctx.run_case(_moves_eval, case, dict(part=part, item='write', hist=_moves_label(moves)))
+            if len(moves) == 2:
+                ctx.sample(case, limit=1)
+
+
+def core_dumps(obj):
+    import json
+    return json.dumps(obj, sort_keys=True)
 
 
 # =============================================================================================
@@ -2376,7 +2761,11 @@ def bounds(tier):
         thermo=dict(coordinates={k: COORDS[k] for k in COORD_ORDER}, deviation_level=2 if q else 3,
                     configurations=len(_thermo_deltas(tier)), writers=['write_thermo_yaml', 'write_cti'],
                     species=len(ORDER_T) + len(ORDER_S), reactions='8-11', interactions='0-3', beps='0-2'),
-        histories=dict(ops=HIST_OPS, inits=HIST_INITS, ops2=HIST_OPS2, inits2=HIST_INITS2, depth=3 if q else 4),
+        histories=dict(ops=HIST_OPS, inits=HIST_INITS, ops2=HIST_OPS2, inits2=HIST_INITS2, depth=3 if q else 4,
+                       ops3=HIST_OPS3, requests=HIST_REQS, inits3=HIST_INITS3, depth3=2 if q else 3),
+        moves=dict(base=MOVE_BASE, moves=[[g, a, b] for g, a, b in MOVES], orders=MOVE_ORDERS, add=MOVE_ADD,
+                   remove=MOVE_REM, other_models=MOVE_CFGS, histories=len(_move_histories(tier)),
+                   writers=['write_thermo_yaml', 'write_cti']),
         forms=dict(base=FORM_BASE, coordinates={k: FORM_COORDS[k] for k in FORM_ORDER}, families=FORM_FAMILY,
                    deviation_level=('singles + pairs inside a family and with units / TP_form / units_arg' if q else
                                     'singles + all pairs + triples inside R and inside S+units'),
@@ -2407,6 +2796,11 @@ def shards(tier):
     for init in HIST_INITS2:
         for first in HIST_OPS2:
             out.append(dict(kind='hist', init=init, first=first, depth=3 if q else 4, ops=HIST_OPS2))
+    for init in HIST_INITS3:
+        for first in HIST_OPS3:
+            out.append(dict(kind='hist', init=init, first=first, depth=2 if q else 3, ops=HIST_OPS3))
+    for ch in _chunks(_move_histories(tier), 16 if q else 32):
+        out.append(dict(kind='moves', histories=[[d, mv] for d, mv in ch]))
     fd = _form_deltas(tier)
     for ch in _chunks(fd, 16 if q else 48):
         out.append(dict(kind='forms', deltas=ch))
@@ -2416,7 +2810,7 @@ def shards(tier):
 def run_shard(shard, ctx):
     _reset_defaults()
     {'phases': _run_phases, 'reactor': _run_reactor, 'thermo': _run_thermo, 'hist': _run_hist,
-     'forms': _run_forms}[shard['kind']](shard, ctx)
+     'forms': _run_forms, 'moves': _run_moves}[shard['kind']](shard, ctx)
 
 
 def check_case(case, ctx):
@@ -2431,5 +2825,7 @@ def check_case(case, ctx):
         _thermo_eval(case, ctx)
     elif kind == 'hist':
         _hist_eval(case, ctx)
+    elif kind == 'moves':
+        _moves_eval(case, ctx)
     else:
         raise ValueError(kind)
